@@ -31,6 +31,23 @@ def _run_file(run, exe, path, known='', trace=False, timeout=120):
         return -9, 'timeout'
 
 
+def _cpu_limited_run(run, exe, path, known, cpu_s):
+    """re-run one input alone under a CPU-time limit (not wall clock: robust against load). Returns (finished, cpu seconds used)."""
+    import resource
+    env = dict(run.env); env['VERIF_KNOWN'] = known; env.pop('VERIF_FRAG', None)
+
+    def lim():
+        resource.setrlimit(resource.RLIMIT_CPU, (cpu_s, cpu_s + 5))
+    t0 = time.time()
+    try:
+        r = subprocess.run([exe, '-timeout=100000', '-rss_limit_mb=4000', path], stdout=subprocess.DEVNULL, stderr=subprocess.DEVNULL, env=env,
+                           cwd=run.bdir, preexec_fn=lim, timeout=cpu_s * 20)
+        killed = r.returncode in (-24, -9, 128 + 24)   # SIGXCPU / SIGKILL
+    except subprocess.TimeoutExpired:
+        return None, time.time() - t0       # starved of CPU: inconclusive
+    return (not killed), time.time() - t0
+
+
 def _reason(out):
     for ln in out.splitlines():
         if 'C12-VIOLATION' in ln: return ln.strip()[:400]
@@ -102,7 +119,7 @@ def run(run, replay, cm):
         env = dict(run.env); env['VERIF_FRAG'] = fragbase; env['VERIF_KNOWN'] = kstr
         cmd = [exe, outcorp] + ([seeds] if os.path.isdir(seeds) else []) + [
             f'-seed={cm.splitmix(run.seed, i) % 2147483647 + 1}', f'-runs={runs}', f'-max_total_time={budget}', '-max_len=400', '-len_control=0',
-            f'-artifact_prefix={art}/', '-timeout=60', '-rss_limit_mb=4000', '-print_final_stats=1', '-reload=30', '-use_value_profile=0']
+            f'-artifact_prefix={art}/', '-timeout=25', '-rss_limit_mb=4000', '-print_final_stats=1', '-reload=30', '-use_value_profile=0']
         lg = open(os.path.join(work, f'log{i}.txt'), 'w')
         procs.append((i, subprocess.Popen(cmd, stdout=lg, stderr=subprocess.STDOUT, env=env, cwd=work), lg, art))
     for i, p, lg, art in procs:
@@ -113,6 +130,18 @@ def run(run, replay, cm):
     for i, p, lg, art in procs:
         for f in sorted(glob.glob(os.path.join(art, '*'))):
             b = os.path.basename(f)
+            if b.startswith('timeout-'):
+                # "returns normally" is part of the property, but slowness is not a violation: the unit is re-run alone under a CPU-time
+                # limit far above anything the work caps of the VM allow (every capped call finishes in milliseconds)
+                if any('does not return' in m for _, m in run.violations):
+                    noise += 1; continue    # one confirmed no-return input is enough; the others are not re-run (each costs minutes)
+                fin, used = _cpu_limited_run(run, exe, f, kstr, tcfg.get('no_return_cpu_s', 120))
+                if fin is False:
+                    rp = _save_replay(run, f)
+                    run.violations.append((rp, f"an API call does not return: the program was stopped after {tcfg.get('no_return_cpu_s', 120)} s of CPU time (work caps bound every call to ~1e4 cells)"))
+                else:
+                    noise += 1
+                continue
             if not (b.startswith('crash-') or b.startswith('leak-')):
                 noise += 1; continue
             fails = 0; why = ''
